@@ -321,6 +321,8 @@ class DataFormat(object):
         if name == KEY_ENCODING:
             try:
                 codecs.lookup(value)
+                # Codecs such as "hex" or "rot13" exist but are no text encodings and cannot be used to read data.
+                "".encode(value)
             except (LookupError, ValueError):
                 raise errors.InterfaceError(
                     "value for data format property %s is %s but must be a valid encoding"
